@@ -163,11 +163,11 @@ class Sim:
             pass
         if n > E and kind != "rs" and not self.dead:
             out = self.outstanding
-            if out is not None and E < out[1]:
+            if out is not None and E <= out[1]:
+                # the gap is closed only when the message that revealed it has been processed as well: until
+                # then the peer is still answering the first request (EndSeqNo=0), a second one duplicates it
                 if rrs:
                     return self._v("resend_request_repeated", f"{kind}:{ctxs}", "no further ResendRequest until that gap is closed", ev, det)
-            elif out is not None and E == out[1]:
-                pass  # unconstrained: the statement does not say whether the gap counts as closed
             else:
                 if len(rrs) != 1:
                     return self._v("resend_request_count", f"{kind}:{len(rrs)}:{ctxs}", "a message numbered above the expected one triggers exactly one ResendRequest", ev, det)
